@@ -19,7 +19,7 @@ RULE = (
     "with duplicate and transitively redundant constraints; gaps in {0,1,3,U(0,20)}; desired positions tied or U(-100,100); weights "
     "unit / {0.5,1,2,3} / 1e-2..1e10; scales 1 or {0.5,1,2,4}; cyclic variants (15% of edges reversed). Plus, in situ, every layer "
     "problem (chain + 1e10-weight walls) created by Force.compute() on seeded label sets. Each solve() is judged: feasibility "
-    "(>= -1e-6), returned cost == cost of positions, optimality gap <= 1e-3*(1+cost) by a dual bound, operations <= 200(n+m)+1e4. "
+    "(>= -1e-6), returned cost == cost of positions, optimality gap <= 1e-3*(1+cost) by a dual bound, operations <= 100(n+m)+5e3. "
     "Non-trivial = at least one merge happened and at least one constraint is tight at the solution; distinct = distinct instance."
 )
 ASSUMPTIONS = [
@@ -278,6 +278,8 @@ def worker(ctx, shard):
     if kind == "direct":
         rng = ctx.rng("direct%d" % shard["sub"])
         for _ in range(shard["n"]):
+            if ctx.should_stop(60):
+                break
             inst, stratum, cyclic = gen_instance(rng)
             solve_direct(ctx, mon, V, inst, stratum, cyclic)
     elif kind == "insitu":
@@ -286,6 +288,8 @@ def worker(ctx, shard):
 
         rng = ctx.rng("insitu%d" % shard["sub"])
         for _ in range(shard["n"]):
+            if ctx.should_stop(60):
+                break
             labels, opts, tag = WL.gen_case(rng, max_n=120)
             f = Force(dict(opts))
             f.nodes(WL.make_nodes(labels))
